@@ -41,6 +41,8 @@ mod imp {
         // CallGlobal (slow path, patches to Mono) / global store (cache flush) / miss / hit
         "fn make_greeter() { let mut n = 0\n return fn() { n = n + 1\n let a = \"alpha\"\n let b = \"beta\"\n let c = \"gamma\"\n let d = \"delta\"\n let h = \"theta\"\n println(h)\n return n } }\nlet greet = make_greeter()\nlet mut flag = 0\nfn run() { greet() }\nrun()\nflag = 1\nrun()\nrun()\n",
         "fn mk(k) { return fn(x) { let a = \"aa\"\n let b = \"bb\"\n let c = \"cc\"\n println(a + b + c)\n return x + k } }\nlet mut g = mk(1)\nlet mut t = 0\nfn run(v) { return g(v) }\nt = t + run(1)\nt = t + run(2)\ng = mk(2)\nt = t + run(3)\nt = t + run(4)\nprintln(t)\n",
+        "fn mk(k) { return fn(x) { let a = \"s1\"\n let b = \"s2\"\n println(a + b)\n return x + k } }\nlet mut g = mk(0)\nlet mut acc = 0\nfn call(v) { return g(v) }\nfor i in 0..5 { acc = acc + call(i)\n acc = acc + call(i)\n g = mk(i) }\nprintln(acc)\n",
+        "fn outer() { let f = fn(n) { return n + 1 }\n let g = fn(x) { let y = f(x)\n return f(y) }\n return g(1) + g(2) }\nprintln(outer())\nfn fact() { let go = fn(n, acc) { if n <= 1 { return acc }\n return acc }\n let h = fn(n) { return go(n, 1) }\n return h(4) }\nprintln(fact())\n",
         "fn plain(x) { let s = \"p1\" + \"p2\"\n println(s)\n return x + 1 }\nfn mk() { let z = 5\n return fn(x) { let s = \"c1\" + \"c2\" + \"c3\"\n println(s)\n return x + z } }\nlet mut h = plain\nlet mut u = 0\nfn go(v) { return h(v) }\nu = go(1)\nu = go(2)\nh = mk()\nu = go(3)\nu = go(4)\nh = plain\nu = go(5)\nu = go(6)\nprintln(u)\n",
     ];
 
@@ -518,20 +520,21 @@ mod imp {
         out
     }
 
-    pub fn execute_logged(vm: &mut VM, f: &Function, budget: u64) -> (String, Vec<(u32, u64, u64)>) {
+    pub fn execute_logged(vm: &mut VM, f: &Function, budget: u64, gc: u8) -> (String, Vec<(u32, u64, u64)>) {
         let fr = match vm.alloc_function(deep(f)) {
             Ok(x) => x,
             Err(_) => return ("alloc-error".into(), Vec::new()),
         };
         vm.clear_frames();
         verif::sink_install();
-        verif::gc_mode_set(0, 0);
+        verif::gc_mode_set(gc, 0);
         verif::budget_set(budget);
         verif::site_log_install();
         verif_sites::enable(true);
         let r = guarded(std::panic::AssertUnwindSafe(|| vm.execute(fr)));
         verif_sites::enable(false);
         let log = verif::site_log_take();
+        verif::gc_mode_set(0, 0);
         verif::budget_set(u64::MAX);
         let _ = verif::sink_take();
         vm.clear_frames();
@@ -552,8 +555,37 @@ mod imp {
         (class, log)
     }
 
+    thread_local! {
+        static HIST_OP: std::cell::RefCell<std::collections::BTreeMap<u64, u64>> = const { std::cell::RefCell::new(std::collections::BTreeMap::new()) };
+        static HIST_SITE: std::cell::RefCell<std::collections::BTreeMap<u32, u64>> = const { std::cell::RefCell::new(std::collections::BTreeMap::new()) };
+    }
+    pub fn print_hist() {
+        HIST_OP.with(|h| {
+            let v: Vec<String> = h.borrow().iter().map(|(k, n)| format!("{}:{}", k, n)).collect();
+            println!("HOP\t{}", v.join(" "));
+        });
+        HIST_SITE.with(|h| {
+            let v: Vec<String> = h.borrow().iter().map(|(k, n)| format!("{}:{}", k, n)).collect();
+            println!("HSITE\t{}", v.join(" "));
+        });
+    }
+
     pub fn report(case: &str, class: &str, log: &[(u32, u64, u64)], nfirst: usize) {
         let ins = split(log);
+        HIST_OP.with(|h| {
+            let mut h = h.borrow_mut();
+            for it in ins.iter().filter(|i| i.complete) {
+                *h.entry((it.snap[2] >> 24) & 255).or_insert(0) += 1;
+            }
+        });
+        HIST_SITE.with(|h| {
+            let mut h = h.borrow_mut();
+            for it in &ins {
+                for a in &it.acc {
+                    *h.entry(a.0).or_insert(0) += 1;
+                }
+            }
+        });
         let mut tainted = false;
         let (mut offgrid, mut stale, mut unresolved) = (0u64, 0u64, 0u64);
         let n = ins.len();
@@ -592,6 +624,61 @@ mod imp {
         }
     }
 
+    /// one instruction of every declared opcode, run on registers preloaded with ints / floats / an array / a vec / a string
+    pub fn sweep_fn(vm: &mut VM, op: u32, variant: u32, abc: (u32, u32, u32)) -> Function {
+        let mut f = Function::new(Some("sweep".into()), 0);
+        f.num_registers = 8;
+        f.constants.push(Value::float(1.5));
+        f.constants.push(Value::float(2.5));
+        let sref = vm.intern_string("h\u{e9}llo").map(|r| r.index()).unwrap_or(0);
+        f.constants.push(Value::ptr(sref));
+        let mut c = Vec::new();
+        match variant {
+            0 => {
+                for (r, v) in [3, 2, 1, 0, 5, 4].iter().enumerate() {
+                    c.push(ins_imm(1, r as u32, *v));
+                }
+            }
+            1 => {
+                for r in 0..6u32 {
+                    c.push(ins_imm(2, r, (r % 2) as i32));
+                }
+            }
+            2 => {
+                c.push(ins_imm(1, 0, 3));
+                c.push(ins(130, 1, 0, 0)); // r1 = Array<int>(r0)
+                c.push(ins_imm(1, 2, 1));
+                c.push(ins_imm(1, 3, 7));
+                c.push(ins_imm(1, 4, 0));
+                c.push(ins(130, 5, 0, 0));
+            }
+            3 => {
+                c.push(ins(148, 1, 0, 0)); // r1 = Vec<int>
+                c.push(ins_imm(1, 3, 7));
+                c.push(ins(153, 1, 3, 0)); // push r3
+                c.push(ins_imm(1, 2, 0));
+                c.push(ins_imm(1, 4, 0));
+                c.push(ins(148, 5, 0, 0));
+                c.push(ins(153, 5, 3, 0));
+            }
+            _ => {
+                c.push(ins_imm(2, 1, 2));
+                c.push(ins_imm(2, 5, 2));
+                c.push(ins_imm(1, 2, 0));
+                c.push(ins_imm(1, 3, 0));
+                c.push(ins_imm(1, 4, 0));
+            }
+        }
+        c.push(ins(op, abc.0, abc.1, abc.2));
+        if is3(op) {
+            c.push(0);
+            c.push(0);
+        }
+        c.push(ins(23, 0, 0, 0));
+        set_code(&mut f, c);
+        f
+    }
+
     fn new_vm() -> VM {
         aelys_driver::new_vm_with_config(Default::default(), Vec::new()).ok().expect("vm")
     }
@@ -612,6 +699,35 @@ mod imp {
     }
 
     pub fn run_case(case: &str, vm: &mut VM, f: &Function, gap: (u32, u32), budget: u64, nfirst: usize, tag: &str) {
+        run_case_gc(case, vm, f, gap, budget, nfirst, tag, 0)
+    }
+
+    /// the same function after a trip through the .avbc writer/reader or the disassembler/assembler, in a fresh VM
+    pub fn reload(vm: &VM, f: &Function, how: u64, rng: &mut Rng) -> Option<(VM, Function, &'static str)> {
+        let r = guarded(std::panic::AssertUnwindSafe(|| {
+            if how == 0 {
+                let mut bytes = aelys_bytecode::asm::serialize(f, vm.heap());
+                let mut label = "avbc";
+                if rng.chance(1, 4) && !bytes.is_empty() {
+                    let k = rng.below(bytes.len() as u64) as usize;
+                    bytes[k] ^= 1 << rng.below(8);
+                    label = "avbc-bitflip";
+                }
+                aelys_bytecode::asm::deserialize(&bytes).ok().map(|(g, h)| (g, h, label))
+            } else {
+                let text = aelys_bytecode::asm::disassemble_to_string(f, Some(vm.heap()));
+                aelys_bytecode::asm::assemble_from_string(&text).ok().and_then(|(fs, h)| fs.into_iter().next().map(|g| (g, h, "aasm")))
+            }
+        }));
+        let (mut g, mut h, label) = r.ok()??;
+        let mut vm2 = new_vm();
+        let remap = vm2.merge_heap(&mut h).ok()?;
+        g.remap_constants(&remap);
+        Some((vm2, g, label))
+    }
+
+    #[allow(clippy::too_many_arguments)]
+    pub fn run_case_gc(case: &str, vm: &mut VM, f: &Function, gap: (u32, u32), budget: u64, nfirst: usize, tag: &str, gc: u8) {
         let sp = spec(f, vm);
         if gap_on_grid(f, gap.0, gap.1) {
             // never decoded in-process: from_u8 would transmute a non-discriminant (UB)
@@ -621,7 +737,7 @@ mod imp {
         let v = verify(vm, f);
         println!("V\t{}\t{}\t{}\t{}", case, tag, sp, v);
         if v == "accept" {
-            let (class, log) = execute_logged(vm, f, budget);
+            let (class, log) = execute_logged(vm, f, budget, gc);
             report(case, &class, &log, nfirst);
         }
     }
@@ -633,6 +749,7 @@ mod imp {
         let budget = arg_u64("--budget", 1500);
         let nfirst = arg_u64("--first", 24) as usize;
         let gap = (arg_u64("--gap-lo", 1) as u32, arg_u64("--gap-hi", 0) as u32);
+        let sweep_all = flag("--sweep-all");
         if let Some(line) = arg("--one-verify") {
             let mut vm = new_vm();
             let toks: Vec<&str> = line.split_whitespace().collect();
@@ -663,6 +780,7 @@ mod imp {
                 let f = parse_spec(&mut toks.iter(), &mut vm).expect("spec");
                 run_case(&format!("corpus{}", n), &mut vm, &f, gap, budget, 1000, "corpus");
             }
+            print_hist();
             return;
         }
         let handle = std::thread::Builder::new().stack_size(256 << 20).spawn(move || {
@@ -672,10 +790,63 @@ mod imp {
                 for opt in 0..4u32 {
                     let mut vm = new_vm();
                     match compile(&mut vm, src, opt) {
-                        Some(f) => run_case(&format!("b{}o{}", pi, opt), &mut vm, &f, gap, budget, nfirst, &format!("p{}o{}:baseline", pi, opt)),
+                        Some(f) => {
+                            run_case(&format!("b{}o{}", pi, opt), &mut vm, &f, gap, budget, nfirst, &format!("p{}o{}:baseline", pi, opt));
+                            // the same under a collection at every safepoint (lifetime of cached code pointers)
+                            let mut vm2 = new_vm();
+                            if let Some(f2) = compile(&mut vm2, src, opt) {
+                                run_case_gc(&format!("g{}o{}", pi, opt), &mut vm2, &f2, gap, budget, nfirst, &format!("p{}o{}:baseline-gc", pi, opt), 2);
+                            }
+                            for how in 0..2u64 {
+                                if let Some((mut vm3, f3, label)) = reload(&vm, &f, how, &mut rng) {
+                                    run_case(&format!("l{}o{}h{}", pi, opt, how), &mut vm3, &f3, gap, budget, nfirst, &format!("p{}o{}:baseline-{}", pi, opt, label));
+                                } else {
+                                    println!("E\treload-failed\t{}\t{}\t{}", pi, opt, how);
+                                }
+                            }
+                        }
                         None => println!("E\tcompile-failed\t{}\t{}", pi, opt),
                     }
                 }
+            }
+            // one instruction of every opcode byte below 182 (declared or not), on several register contents
+            let variants: &[u32] = if sweep_all { &[0, 1, 2, 3, 4] } else { &[0, 9] };
+            for op in 0..182u32 {
+                if op >= gap.0 && op <= gap.1 {
+                    continue;
+                }
+                for &v in variants {
+                    let v = if v == 9 {
+                        match op { 54..=58 | 65..=70 | 87..=91 | 98..=103 => 1, 130..=147 | 179 => 2, 148..=175 | 178 => 3, 176 | 177 => 4, _ => continue }
+                    } else { v };
+                    for abc in [(4u32, 1u32, 2u32), (3, 0, 1)] {
+                        let mut vm = new_vm();
+                        let f = sweep_fn(&mut vm, op, v, abc);
+                        run_case(&format!("s{}v{}a{}", op, v, abc.0), &mut vm, &f, gap, budget, nfirst, &format!("sweep:op{}:v{}", op, v));
+                    }
+                }
+            }
+            // CallUpval / TailCallUpval are not emitted by the typed pipeline: hand-built closure calling a captured function
+            for (op, leaf_is_closure) in [(80u32, false), (81, false), (80, true), (81, true)] {
+                let mut vm = new_vm();
+                let mut leaf = Function::new(Some("leaf".into()), 1);
+                leaf.num_registers = 2;
+                leaf.constants.push(Value::int(7));
+                leaf.constants.push(Value::int(8));
+                set_code(&mut leaf, vec![ins_imm(2, 1, 1), ins(5, 0, 0, 1), ins(22, 0, 0, 0)]);
+                let mut user = Function::new(Some("user".into()), 0);
+                user.num_registers = 4;
+                user.upvalue_descriptors.push(UpvalueDescriptor { is_local: true, index: 2 });
+                set_code(&mut user, vec![ins_imm(1, 1, 5), ins(op, 0, 0, 1), ins(22, 0, 0, 0)]);
+                let mut main = Function::new(Some("main".into()), 0);
+                main.num_registers = 8;
+                main.constants.push(Value::nested_fn_marker(0));
+                main.constants.push(Value::nested_fn_marker(1));
+                main.nested_functions.push(leaf);
+                main.nested_functions.push(user);
+                let load_leaf = if leaf_is_closure { ins(35, 2, 0, 0) } else { ins_imm(2, 2, 0) };
+                set_code(&mut main, vec![load_leaf, ins(35, 5, 1, 1), ins(21, 6, 5, 0), ins(22, 6, 0, 0)]);
+                run_case(&format!("u{}c{}", op, leaf_is_closure as u8), &mut vm, &main, gap, budget, nfirst, &format!("sweep:upvalcall{}", op));
             }
             for n in 0..cases {
                 let mut vm = new_vm();
@@ -689,8 +860,16 @@ mod imp {
                     }
                 };
                 let (tag, f) = mutate(&base, &mut rng, gap);
-                run_case(&format!("c{}", n), &mut vm, &f, gap, budget, nfirst, &format!("p{}o{}:{}", pi, opt, tag));
+                let gc = if rng.chance(1, 5) { 2 } else { 0 };
+                run_case_gc(&format!("c{}", n), &mut vm, &f, gap, budget, nfirst, &format!("p{}o{}:{}{}", pi, opt, tag, if gc == 2 { ":gc" } else { "" }), gc);
+                if rng.chance(1, 4) && !gap_on_grid(&f, gap.0, gap.1) {
+                    let how = rng.below(2);
+                    if let Some((mut vm3, f3, label)) = reload(&vm, &f, how, &mut rng) {
+                        run_case(&format!("c{}r", n), &mut vm3, &f3, gap, budget, nfirst, &format!("p{}o{}:{}:via-{}", pi, opt, tag, label));
+                    }
+                }
             }
+            print_hist();
         }).unwrap();
         handle.join().unwrap();
     }
